@@ -108,6 +108,12 @@ fn c15_check(_ctx: &Ctx, c: &TimedCase) -> Report {
   use arx_rt::Kind::*;
   match r.outcome.kind {
     Done | Quiescent => {}
+    StepBudget | FuelExhausted => {
+      // every subscription is ended by the epilogue at the latest: a thread that is still
+      // busy 400 000 scheduling points later never stops
+      rep.fail = fail(format!("a library thread keeps running after every subscription ended ({:?})", r.outcome.kind));
+      return rep;
+    }
     ref k => {
       rep.classes.push(format!("aborted:{:?}", k));
       return rep;
